@@ -2,7 +2,7 @@
    P ranges over ALL primitives satisfying [laws] (Proofs/Unblind.v): ECDH symmetry and
    key-injective nonces, canonical 33-byte generator / commitment serialisation,
    H(a)+0*G = H(a), range-proof rewind completeness and exclusiveness, Pedersen binding.
-   [blinded_for ...] says the amount was blinded by the library's own sequence
+   [blinded_for ...] says the amount was ub_blinded by the library's own sequence
    (AssetCommitment, ValueCommitment, NonceHash, RangeProof) for recipient key pair
    (rsk, R) with ephemeral pair (esk, E), for any value the range proof supports
    (RangeProof returned a proof), any script class, any Exp / MinBits. *)
@@ -14,7 +14,7 @@ Theorem C06_unblind_blind_key :
   forall G C (P : prims G C) pk, laws P pk ->
   forall value asset abf vbf script rsk esk R E exp mb bl,
   blinded_for P pk value asset abf vbf script rsk esk R E exp mb bl ->
-  forall sp, unblind_with_key P (out_of_blinded bl script E sp) rsk = ROk (mk_unb value asset vbf abf).
+  forall sp, unblind_with_key P (out_of_blinded bl script E sp) rsk = UOk (mk_unb value asset vbf abf).
 Proof. exact @x_unblind_blind_key. Qed.
 Print Assumptions C06_unblind_blind_key.
 
@@ -23,7 +23,7 @@ Theorem C06_unblind_blind_nonce :
   forall G C (P : prims G C) pk, laws P pk ->
   forall value asset abf vbf script rsk esk R E exp mb bl,
   blinded_for P pk value asset abf vbf script rsk esk R E exp mb bl ->
-  forall sp, unblind_with_nonce P (out_of_blinded bl script E sp) (bl_nonce bl) = ROk (mk_unb value asset vbf abf).
+  forall sp, unblind_with_nonce P (out_of_blinded bl script E sp) (bl_nonce bl) = UOk (mk_unb value asset vbf abf).
 Proof. exact @x_unblind_blind_nonce. Qed.
 Print Assumptions C06_unblind_blind_nonce.
 
@@ -32,7 +32,7 @@ Theorem C06_revealed_recreates_commitments :
   forall G C (P : prims G C) pk, laws P pk ->
   forall value asset abf vbf script rsk esk R E exp mb bl,
   blinded_for P pk value asset abf vbf script rsk esk R E exp mb bl ->
-  forall sp u, unblind_with_key P (out_of_blinded bl script E sp) rsk = ROk u ->
+  forall sp u, unblind_with_key P (out_of_blinded bl script E sp) rsk = UOk u ->
   u = mk_unb value asset vbf abf /\
   asset_commitment P (u_asset u) (u_abf u) = Some (bl_asset bl) /\
   value_commitment P (u_value u) (bl_asset bl) (u_vbf u) = Some (bl_value bl).
@@ -44,7 +44,7 @@ Theorem C06_wrong_key_fails :
   forall G C (P : prims G C) pk, laws P pk ->
   forall value asset abf vbf script rsk esk R E exp mb bl,
   blinded_for P pk value asset abf vbf script rsk esk R E exp mb bl ->
-  forall sp k, k <> rsk -> unblind_with_key P (out_of_blinded bl script E sp) k = RErr.
+  forall sp k, k <> rsk -> unblind_with_key P (out_of_blinded bl script E sp) k = UErr.
 Proof. exact @x_wrong_key_fails. Qed.
 Print Assumptions C06_wrong_key_fails.
 
@@ -53,7 +53,7 @@ Theorem C06_wrong_nonce_fails :
   forall G C (P : prims G C) pk, laws P pk ->
   forall value asset abf vbf script rsk esk R E exp mb bl,
   blinded_for P pk value asset abf vbf script rsk esk R E exp mb bl ->
-  forall sp n, fit 32 n <> bl_nonce bl -> unblind_with_nonce P (out_of_blinded bl script E sp) n = RErr.
+  forall sp n, ub_fit 32 n <> bl_nonce bl -> unblind_with_nonce P (out_of_blinded bl script E sp) n = UErr.
 Proof. exact @x_wrong_nonce_fails. Qed.
 Print Assumptions C06_wrong_nonce_fails.
 
@@ -64,7 +64,7 @@ Theorem C06_tampered_script_fails :
   blinded_for P pk value asset abf vbf script rsk esk R E exp mb bl ->
   forall script' sp k n, script' <> script ->
   let o' := mk_out (bl_asset bl) (bl_value bl) script' E (bl_proof bl) sp in
-  unblind_with_key P o' k = RErr /\ unblind_with_nonce P o' n = RErr.
+  unblind_with_key P o' k = UErr /\ unblind_with_nonce P o' n = UErr.
 Proof. exact @x_tampered_script_fails. Qed.
 Print Assumptions C06_tampered_script_fails.
 
@@ -75,7 +75,7 @@ Theorem C06_tampered_value_commitment_fails :
   blinded_for P pk value asset abf vbf script rsk esk R E exp mb bl ->
   forall vc' sp k n, vc' <> bl_value bl ->
   let o' := mk_out (bl_asset bl) vc' script E (bl_proof bl) sp in
-  unblind_with_key P o' k = RErr /\ unblind_with_nonce P o' n = RErr.
+  unblind_with_key P o' k = UErr /\ unblind_with_nonce P o' n = UErr.
 Proof. exact @x_tampered_value_commitment_fails. Qed.
 Print Assumptions C06_tampered_value_commitment_fails.
 
@@ -86,7 +86,7 @@ Theorem C06_tampered_asset_commitment_fails :
   blinded_for P pk value asset abf vbf script rsk esk R E exp mb bl ->
   forall ac' sp k n, length ac' = 33%nat -> ac' <> bl_asset bl ->
   let o' := mk_out ac' (bl_value bl) script E (bl_proof bl) sp in
-  unblind_with_key P o' k = RErr /\ unblind_with_nonce P o' n = RErr.
+  unblind_with_key P o' k = UErr /\ unblind_with_nonce P o' n = UErr.
 Proof. exact @x_tampered_asset_commitment_fails. Qed.
 Print Assumptions C06_tampered_asset_commitment_fails.
 
@@ -97,7 +97,7 @@ Theorem C06_never_other_amounts :
   forall value asset abf vbf script rsk esk R E exp mb bl,
   blinded_for P pk value asset abf vbf script rsk esk R E exp mb bl ->
   forall o' k u, o_rp o' = bl_proof bl -> is_conf_out o' = true ->
-  unblind_with_key P o' k = ROk u -> u = mk_unb value asset vbf abf.
+  unblind_with_key P o' k = UOk u -> u = mk_unb value asset vbf abf.
 Proof. exact @x_never_other_amounts. Qed.
 Print Assumptions C06_never_other_amounts.
 
@@ -107,7 +107,7 @@ Theorem C06_tampered_proof_never_other_value :
   forall value asset abf vbf script rsk esk R E exp mb bl,
   blinded_for P pk value asset abf vbf script rsk esk R E exp mb bl ->
   forall p' sp k u,
-  unblind_with_key P (mk_out (bl_asset bl) (bl_value bl) script E p' sp) k = ROk u ->
+  unblind_with_key P (mk_out (bl_asset bl) (bl_value bl) script E p' sp) k = UOk u ->
   u_value u = value /\ u_vbf u = vbf.
 Proof. exact @x_tampered_proof_never_other_value. Qed.
 Print Assumptions C06_tampered_proof_never_other_value.
@@ -126,8 +126,8 @@ Theorem C06_explicit_output :
   forall G C (P : prims G C) a s n sp k value,
   (length n <= 1)%nat -> value < two64 ->
   let o := mk_out (b8 1 :: a) (b8 1 :: be_enc 8 value) s n [] sp in
-  unblind_with_key P o k = ROk (mk_unb value a zero32 zero32) /\
-  unblind_with_nonce P o k = ROk (mk_unb value a zero32 zero32).
+  unblind_with_key P o k = UOk (mk_unb value a ub_zero32 ub_zero32) /\
+  unblind_with_nonce P o k = UOk (mk_unb value a ub_zero32 ub_zero32).
 Proof. exact @unblind_explicit_output. Qed.
 Print Assumptions C06_explicit_output.
 
@@ -145,7 +145,7 @@ Theorem C06_unblind_issuance_blind :
   iss_token s = bl_value bt -> in_inrp i = bl_proof bt ->
   forall rest,
   unblind_issuance P i (ka :: kt :: rest) =
-    ROk (mk_unb va aid vbfa zero32, Some (mk_unb vt tid vbft zero32)).
+    UOk (mk_unb va aid vbfa ub_zero32, Some (mk_unb vt tid vbft ub_zero32)).
 Proof. exact @unblind_issuance_blind. Qed.
 Print Assumptions C06_unblind_issuance_blind.
 
@@ -156,7 +156,7 @@ Theorem C06_unblind_issuance_blind_asset_only :
   blind_issuance_amount P va aid vbfa ka = Some ba ->
   iss_amount s = bl_value ba -> in_irp i = bl_proof ba ->
   forall k1 rest, has_token_amount s = false ->
-  unblind_issuance P i (ka :: k1 :: rest) = ROk (mk_unb va aid vbfa zero32, None).
+  unblind_issuance P i (ka :: k1 :: rest) = UOk (mk_unb va aid vbfa ub_zero32, None).
 Proof. exact @unblind_issuance_blind_asset_only. Qed.
 Print Assumptions C06_unblind_issuance_blind_asset_only.
 
@@ -165,7 +165,7 @@ Theorem C06_issuance_recreates_commitment :
   forall s aid va vbfa ka ba,
   length vbfa = 32%nat ->
   blind_issuance_amount P va aid vbfa ka = Some ba -> iss_amount s = bl_value ba ->
-  asset_commitment P aid zero32 = Some (bl_asset ba) /\
+  asset_commitment P aid ub_zero32 = Some (bl_asset ba) /\
   value_commitment P va (bl_asset ba) vbfa = Some (iss_amount s).
 Proof. exact @issuance_recreates_commitment. Qed.
 Print Assumptions C06_issuance_recreates_commitment.
@@ -175,7 +175,7 @@ Theorem C06_issuance_wrong_asset_key_fails :
   forall i s aid va vbfa ka ba,
   in_iss i = Some s -> calc_asset_hash i s = Some aid -> length vbfa = 32%nat ->
   blind_issuance_amount P va aid vbfa ka = Some ba -> in_irp i = bl_proof ba ->
-  forall k0 keys, fit 32 k0 <> fit 32 ka -> unblind_issuance P i (k0 :: keys) = RErr.
+  forall k0 keys, ub_fit 32 k0 <> ub_fit 32 ka -> unblind_issuance P i (k0 :: keys) = UErr.
 Proof. exact @issuance_wrong_asset_key_fails. Qed.
 Print Assumptions C06_issuance_wrong_asset_key_fails.
 
@@ -189,7 +189,7 @@ Theorem C06_issuance_wrong_token_key_fails :
   calc_token_hash i s = Some tid -> length vbft = 32%nat ->
   blind_issuance_amount P vt tid vbft kt = Some bt ->
   iss_token s = bl_value bt -> in_inrp i = bl_proof bt ->
-  forall k1 rest, fit 32 k1 <> fit 32 kt -> unblind_issuance P i (ka :: k1 :: rest) = RErr.
+  forall k1 rest, ub_fit 32 k1 <> ub_fit 32 kt -> unblind_issuance P i (ka :: k1 :: rest) = UErr.
 Proof. exact @issuance_wrong_token_key_fails. Qed.
 Print Assumptions C06_issuance_wrong_token_key_fails.
 
@@ -200,7 +200,7 @@ Theorem C06_issuance_tampered_amount_fails :
   blind_issuance_amount P va aid vbfa ka = Some ba ->
   forall i' s' keys,
   in_iss i' = Some s' -> in_irp i' = bl_proof ba -> iss_amount s' <> bl_value ba ->
-  unblind_issuance P i' keys = RErr.
+  unblind_issuance P i' keys = UErr.
 Proof. exact @issuance_tampered_amount_fails. Qed.
 Print Assumptions C06_issuance_tampered_amount_fails.
 
@@ -212,7 +212,7 @@ Theorem C06_issuance_never_other_amount :
   length aid = 32%nat -> length vbfa = 32%nat ->
   blind_issuance_amount P va aid vbfa ka = Some ba ->
   in_irp i' = bl_proof ba ->
-  unblind_issuance P i' keys = ROk (ua', ut') -> u_value ua' = va /\ u_vbf ua' = vbfa.
+  unblind_issuance P i' keys = UOk (ua', ut') -> u_value ua' = va /\ u_vbf ua' = vbfa.
 Proof. exact @issuance_never_other_amount. Qed.
 Print Assumptions C06_issuance_never_other_amount.
 
